@@ -116,7 +116,12 @@ func (p *preprocessor) worker(workerID string) {
 		case <-controlChans.PauseCh:
 			verifhook.At("pre.pause.ack", workerID)
 			logger.Debug("received pause event")
-			controlChans.ResumeCh <- struct{}{}
+			select {
+			case controlChans.ResumeCh <- struct{}{}:
+			case <-p.ctx.Done():
+				logger.Debug("shutting down while paused")
+				return
+			}
 			verifhook.At("pre.resumed", workerID)
 			logger.Debug("received resume event")
 		case seed, ok := <-p.inputCh:
